@@ -61,6 +61,9 @@ KILLS = [
     "unprotect(): index period 13*11 -> 13 -> cipher.decrypt, cipher.roundtrip, memory.P.load, tokfile.memory.P, convert.P-B/P-P",
     "BinaryFile.close: EOF byte not written -> file.B, file.P",
     "Program.load: rebuild_line_dict skipped for binary formats -> index.after-load, tokfile.memory.B/P",
+    "Program.merge: `if not line and not cr` -> `if not line` (stop at the first empty line) -> textfile.list, textfile.memory",
+    "Program.merge: stop at a line of blanks only -> textfile.list, textfile.memory",
+    "Program.merge: last line dropped when the file lacks a final line break -> textfile.list, textfile.memory",
     "unfixed tree: skip_to treats 0x8F inside a string as REM -> memory.B.load (regression case)",
 ]
 
